@@ -98,6 +98,18 @@ class Arm:
         """the Ok value of `call` becomes the current element: assigned to the element variable, returned as
         Ok(..)/directly, or handed as the element argument to a later mechanism call whose result is"""
         b = self.body
+        cf = self.R.lib.fns.get(call.node["callee"].get("path"), {})
+        inplace_idx = [i for i, t in enumerate(cf.get("inputs", [])) if t.get("adt") == "element::Element" and t.get("s", "").startswith("&mut ")]
+        if inplace_idx and call.node["callee"].get("path") != self.R.tp.name:
+            # a mechanism step that updates the element it is handed through a unique reference (e.g. the demotion step):
+            # it must be handed the current element; a Result, if any, must be propagated
+            arg = strip(term_of(b, call.node["args"][inplace_idx[0]]))
+            if not self.is_root(arg):
+                return False
+            if cf.get("output", {}).get("adt") != "std::result::Result":
+                return True
+            return any(cname(c.node) == "std::ops::Try::branch" and ("call", call) in b.origins(c.node["args"][0]) for c in b.calls()) or \
+                (call.node["dest"]["l"] == 0 and not call.node["dest"]["p"])
         if getattr(self.R, "tp_inplace", False) and call.node["callee"].get("path") == self.R.tp.name:
             # the tag parser updates the element it is handed in place; its Result must be `?`-propagated or returned
             if call.node["dest"]["l"] == 0 and not call.node["dest"]["p"]:
@@ -239,7 +251,9 @@ class Roles:
             self.problems.append("expected one snapshot call (argument = get_child(name)) in the Start arm, found %d" % len(sn))
             return
         self.sn_call = sn[0]
-        self.sn = lib.bodies[sn[0].node["callee"]["path"]]
+        from .common import normal_form
+        self.sn_raw = lib.bodies[sn[0].node["callee"]["path"]]
+        self.sn = normal_form(lib, self.sn_raw)
         self.tp_calls = {v: self.arm[v].calls_to(self.tp.name) for v in ("Start", "Empty")}
         self.ds_calls = {v: self.arm[v].calls_to(self.ds.name) for v in ("Start", "Empty")}
 
@@ -554,6 +568,8 @@ def decoded_source(b, t):
 
 def _is_tag_name(b, t, event_arg):
     """t == decode(event.name())? exactly (no other transformation of the name)"""
+    if isinstance(event_arg, tuple) and event_arg[0] == "name-param":
+        return strip(t, mir.VALUE_PRESERVING) == ("arg", event_arg[1])
     src = decoded_source(b, t)
     return src is not None and src[0] == "call" and src[1] == "quick_xml::events::BytesStart::name" and _root_is_arg(strip(src[2][0]), event_arg)
 
@@ -836,10 +852,14 @@ def pm8_start_protocol(r, R):
         g = guards_of(b, d.bb, within=As.blocks)
         flag_ok = len(g) == 1 and g[0][2] is True and ((g[0][0] == "flag" and _flag_from_snapshot(R, g[0][1], b)) or
                                                         (g[0][0] == "value" and _sn_result_field(R, g[0][1], 1)))
+        if len(g) == 1 and g[0][0] == "enum" and g[0][1] == "std::option::Option" and g[0][3] == "Some":
+            # `if let Some(snapshot) = count_children(..)`: the Option of the snapshot is the pre-existence flag
+            gt = g[0][2]
+            flag_ok = gt[0] == "call" and len(gt) > 3 and gt[3] == R.sn_call
         after = b.dominates(tp_s.bb, d.bb)
         args = [strip(term_of(b, x)) for x in d.node["args"]]
         snap_ok = any(_is_snapshot_map(R, x, b) for x in args)
-        ev_ok = any(As.is_event(x) for x in args)
+        ev_ok = any(As.is_event(x) for x in args) or any(As.event_name_of(term_of(b, x)) for x in d.node["args"])
         okd = flag_ok and after and snap_ok and ev_ok
         why = "after the tag parser, exactly when the child pre-existed, with the snapshot and this event" if okd else \
             "demotion call: guard=%s (must be the pre-existence flag only), after parser=%s, snapshot passed=%s, same event=%s" % ([guard_s(x) for x in g], after, snap_ok, ev_ok)
@@ -859,7 +879,8 @@ def pm8_start_protocol(r, R):
         g = guards_of(be, d.bb, within=Ae.blocks)
         args = [strip(term_of(be, x)) for x in d.node["args"]]
         empty_map = any(x[0] == "call" and (_map_call(x[1], "new") or x[1] == "std::default::Default::default") for x in args)
-        oke = not g and be.dominates(tp_e.bb, d.bb) and empty_map and any(Ae.is_event(x) for x in args)
+        oke = not g and be.dominates(tp_e.bb, d.bb) and empty_map and \
+            (any(Ae.is_event(x) for x in args) or any(Ae.event_name_of(term_of(be, x)) for x in d.node["args"]))
         why = "after the tag parser, unconditionally, with an empty snapshot (every Mandatory child of an existing element is demoted)" if oke else \
             "Empty-arm demotion: guards=%s, empty snapshot=%s" % ([guard_s(x) for x in g], empty_map)
     ob(r, "PM11.empty-demotes", P + ("C06",), "Empty arm", oke, why, de[0] if de else tp_e, "PM11|empty")
@@ -905,6 +926,9 @@ def _same_event(R, t, v):
 
 def _sn_result_field(R, t, idx):
     t = strip(t)
+    if t[0] == "proj" and t[1][0] == "call" and len(t[1]) > 3 and t[1][3] == R.sn_call and idx == 0 and \
+            [e[1] if e[0] == "dc" else e[-1] for e in t[2] if e != "*"] == ["Some", "0"]:
+        return True     # Option-valued snapshot: the map is the Some payload
     return t[0] == "proj" and t[1][0] == "call" and len(t[1]) > 3 and t[1][3] == R.sn_call and any(e != "*" and e[0] == "i" and e[1] == idx for e in t[2])
 
 
@@ -942,7 +966,52 @@ def _sn_results(sn):
     return out
 
 
+def _snapshot_option_form(r, R):
+    """the snapshot function returns Option<map>: Some(snapshot) exactly when the child already exists (the Option
+    plays the role of the pre-existence flag)"""
+    sn = R.sn
+    if R.lib.fns.get(sn.name, {}).get("output", {}).get("adt") != "std::option::Option":
+        return False
+    somes, nones, other = [], [], []
+    for s_ in sn.sites():
+        n = s_.node
+        if s_.si is not None and n["k"] == "assign" and n["place"]["l"] == 0 and not n["place"]["p"]:
+            rv = n["rv"]
+            if rv["k"] == "agg" and rv.get("variant") == "Some":
+                somes.append(s_)
+            elif rv["k"] == "agg" and rv.get("variant") == "None":
+                nones.append(s_)
+            else:
+                other.append(s_)
+        elif s_.si is None and n["k"] == "call" and n["dest"]["l"] == 0 and not n["dest"]["p"]:
+            src = strip(term_of(sn, n["args"][0])) if n["args"] else ("x",)
+            if cname(n) == "std::ops::FromResidual::from_residual" and any(st[0] == "call" and st[1] == "std::ops::Try::branch" and strip(st[2][0]) == ("arg", 1) for st in mir.subterms(src)):
+                nones.append(s_)       # `tag?`: None exactly when the tag is None
+            else:
+                other.append(s_)
+    ok = len(somes) == 1 and nones and not other
+    why = "Option-valued snapshot function not recognised (%d Some / %d None / %d other results)" % (len(somes), len(nones), len(other))
+    if ok:
+        g = guards_of(sn, somes[0].bb)
+        extra = [x for x in g if not (x[0] == "enum" and x[1] == "std::option::Option" and x[2] == ("arg", 1) and x[3] == "Some")]
+        tested = any(x[0] == "enum" and x[2] == ("arg", 1) for x in g) or \
+            any(cname(c.node) == "std::ops::Try::branch" and strip(term_of(sn, c.node["args"][0])) == ("arg", 1) and sn.dominates(c.bb, somes[0].bb) for c in sn.calls())
+        for s_ in nones:
+            if s_.si is not None:
+                gn = guards_of(sn, s_.bb)
+                if not any(x[0] == "enum" and x[2] == ("arg", 1) and x[3] == "None" for x in gn):
+                    tested = False
+        ok = not extra and tested
+        why = "result is Some(snapshot) exactly when the child already exists and None otherwise" if ok else "Some/None of the snapshot is not tied to Some(tag)/None (%s)" % [guard_s(x) for x in extra]
+    ob(r, "PM8a.pre-existence-flag", ("C01", "C03", "C06"), sn.name, ok, why, mir.line_of(sn.span), "PM8a|flag")
+    ob(r, "PM9.single-result-path", ("C01", "C03", "C06"), sn.name, ok, "every result of the snapshot function is Some(snapshot) / None of the checked alternatives" if ok else
+       "the snapshot function has result paths that are not the checked Some(snapshot) / None", somes[0] if somes else mir.line_of(sn.span), "PM9|single-result")
+    return True
+
+
 def _snapshot_flag(r, R):
+    if _snapshot_option_form(r, R):
+        return
     sn = R.sn
     res = _sn_results(sn)
     ok = False
@@ -1096,9 +1165,14 @@ def pm10_demotion(r, R):
             par["event"] = i + 1
         elif t.get("adt") in MAP_ADTS:
             par["snap"] = i + 1
-    if set(par) != {"root", "event", "snap"}:
+        elif t.get("refs", 0) >= 1 and (t.get("adt") == "std::string::String" or t.get("prim") == "str"):
+            par["name"] = i + 1     # the tag name, decoded by the caller (checked at the call sites: PM8a / PM11)
+    if set(par) not in ({"root", "event", "snap"}, {"root", "name", "snap"}):
         ob(r, "PM10.anchor", ("C01", "C03"), ds.name, False, "demotion step parameters not recognised: %s" % par, mir.line_of(ds.span), "PM10|anchor")
         return
+    if "name" in par:
+        # inside the step, `the tag name` is the parameter itself
+        par["event"] = ("name-param", par["name"])
     pushes = [c for c in ds.calls() if cname(c.node) == "std::vec::Vec::push"]
     coll = None
     if pushes:
@@ -1106,7 +1180,7 @@ def pm10_demotion(r, R):
         coll = t[3].node["dest"]["l"] if t[0] == "call" and len(t) > 3 else (t[1] if t[0] == "local" else None)
 
     def is_parent_guard(g):
-        return g[0] == "enum" and g[1] == "std::option::Option" and g[3] == "Some" and g[2][0] == "call" and g[2][1].endswith("Element::get_child") and \
+        return g[0] == "enum" and g[1] == "std::option::Option" and g[3] == "Some" and g[2][0] == "call" and g[2][1].endswith(("Element::get_child", "Element::get_child_mut")) and \
             strip(g[2][2][0]) == ("arg", par["root"]) and _is_tag_name(ds, g[2][2][1], par["event"])
 
     kinds = {}
@@ -1177,7 +1251,7 @@ def pm10_demotion(r, R):
                     chain.append(t[1])
                     t = strip(t[2][0])
                 okt = not early and "element::Element::children" in chain and all(x in ("std::iter::IntoIterator::into_iter", "core::slice::iter", "element::Element::children",
-                                                                                   "necessity::Necessity::inner_t") + mir.TRANSPARENT_CALLS for x in chain)
+                                                                                   "necessity::Necessity::inner_t", "necessity::Necessity::inner_t_mut") + mir.TRANSPARENT_CALLS for x in chain)
         ob(r, "PM10.full-scan-%s" % kind, ("C01", "C03"), ds.name, okt, "the scan visits every child of the re-seen element" if okt else "the `%s` scan is not a full traversal of parent.children()" % kind,
            c, "PM10|scan|%s" % kind)
     # PM10c every collected name is demoted: pop loop -> set_child_optional(parent_mut, &name)
@@ -1213,6 +1287,11 @@ def pm10_demotion(r, R):
     # returns the same root
     rets = [s for s in ds.assigns() if s.node["place"]["l"] == 0 and s.node["rv"]["k"] == "agg" and s.node["rv"]["variant"] == "Ok"]
     okr = len(rets) == 1 and strip(term_of(ds, rets[0].node["rv"]["ops"][0])) in (("arg", par["root"]), ("local", par["root"]))
+    if f["inputs"][par["root"] - 1].get("s", "").startswith("&mut "):
+        # the step demotes on the caller's element in place: there is no element to hand back
+        def unit(t):
+            return (t[0] == "agg" and t[1] == "tuple" and not t[3]) or (t[0] == "const" and t[1] in (None, "()", ()))
+        okr = all(unit(strip(term_of(ds, s_.node["rv"]["ops"][0]))) for s_ in rets)
     ob(r, "PM10.returns-same-element", ("C01", "C03", "C06"), ds.name, okr, "returns the element it was given" if okr else "Ok value is not the element parameter", rets[0] if rets else None, "PM10|ret")
 
 
